@@ -110,6 +110,12 @@ class Sym:
                     if el is not None:
                         base = el
                         continue
+                    # value half of a checked operation on two constants
+                    mc = re.fullmatch(r"\(c:(-?\d+) (Add|Sub|Mul)! c:(-?\d+)\)", base) if e["f"] == 0 else None
+                    if mc:
+                        x_, y_ = int(mc.group(1)), int(mc.group(3))
+                        base = "c:%d" % {"Add": x_ + y_, "Sub": x_ - y_, "Mul": x_ * y_}[mc.group(2)]
+                        continue
                     base = "%s.%s" % (base, e["n"] or e["f"])
                 elif "dc" in e:
                     base = "%s@%s" % (base, e["n"] or e["dc"])
@@ -175,7 +181,15 @@ class Sym:
             return "(%s as %s)" % (self.val(rhs["ops"][0], depth + 1), rhs["to"])
         if rv == "bin":
             op = rhs["op"].replace("WithOverflow", "!").replace("Unchecked", "")
-            return "(%s %s %s)" % (self.val(rhs["ops"][0], depth + 1), op, self.val(rhs["ops"][1], depth + 1))
+            a_, b_ = self.val(rhs["ops"][0], depth + 1), self.val(rhs["ops"][1], depth + 1)
+            ma, mb = re.fullmatch(r"c:(-?\d+)", a_), re.fullmatch(r"c:(-?\d+)", b_)
+            if ma and mb and op in ("Add", "Sub", "Mul", "Shl", "Shr", "BitAnd", "BitOr", "BitXor") and not rhs["op"].endswith("WithOverflow"):
+                # arithmetic on two constants (`BASE + COUNT` with named constants): the constant
+                x_, y_ = int(ma.group(1)), int(mb.group(1))
+                if op not in ("Shl", "Shr") or 0 <= y_ < 64:
+                    return "c:%d" % {"Add": x_ + y_, "Sub": x_ - y_, "Mul": x_ * y_, "Shl": x_ << y_ if op == "Shl" else 0, "Shr": x_ >> y_ if op == "Shr" else 0,
+                                     "BitAnd": x_ & y_, "BitOr": x_ | y_, "BitXor": x_ ^ y_}[op]
+            return "(%s %s %s)" % (a_, op, b_)
         if rv == "un":
             return "(%s %s)" % (rhs["op"], self.val(rhs["ops"][0], depth + 1))
         if rv == "discr":
